@@ -114,6 +114,7 @@ pub fn step_strategy(reg: Reg, class_c: bool, allow_join: bool) -> impl Strategy
         (10, (prop_oneof![8 => 1u8..=223, 1 => Just(0u8)], 0u8..50, any::<bool>(), plan_strategy(reg, class_c)).prop_map(|(port, len, confirmed, rx)| Step::Send { port, len, confirmed, rx }).boxed()),
         (1, uplink_dr_strategy(reg).prop_map(Step::SetDr).boxed()),
         (1, any::<bool>().prop_map(Step::SetAdr).boxed()),
+        (1, prop_oneof![3 => Just(false), 1 => Just(true)].prop_map(Step::SetDrain).boxed()),
         (1, prop_oneof![3 => 1u16..8, 1 => 90u16..140].prop_map(Step::Silence).boxed()),
     ];
     if class_c {
